@@ -86,6 +86,9 @@ def c08_suites(tier, seed):
     s.append(("queries", hists_of(jgen.gen_queries(seed, 12 if q else 200))))
     prof = {"p_reads": 0.6, "p_delete": 0.15, "ops": 80, "txs": 4}
     s.append(("rand-reads", suite_random(seed, 60 if q else 1500, dict(prof, families=["deep", "short"]), "qr")))
+    s.append(("prefix-queries", hists_of(jgen.gen_prefix_queries(seed, 30 if q else 100))))
+    # keys that are prefixes of one another, in trees whose leaves get merged
+    s.append(("prefix-keys", suite_random(seed + 7, 40 if q else 1000, dict(prof, families=["prefix", "prefix", "deep"], p_delete=0.4, p_reads=0.4), "qp")))
     return s
 
 
@@ -216,6 +219,8 @@ def hist_runner(prop, tier, seed, scratch, spec):
         "impl_outcome_histogram": {k: v for k, v in stats.items() if "/" in k},
         "layer_c": {"buckets_whose_committed_shape_was_predicted_by_the_model": stats.get("layerc_buckets_compared", 0),
                     "rebalance_steps_replayed": stats.get("layerc_rebalance_steps_replayed", 0),
+                    "overlay_trees_predicted_from_committed_tree_plus_leaf_edits": stats.get("overlay_trees_predicted", 0),
+                    "tree_pages_whose_bytes_equal_the_model_writer_output": stats.get("pages_reencoded", 0),
                     "invariants_evaluated_on_real_trees": "Sep (wfsb), tightness (tightB / tightMB after the rebalance replay), uniform depth, no empty branch"},
     }
     return {"violations": [(p_, d, "") for p_, d in reports], "coverage": cov, "explored": len(results), "known": []}
